@@ -9,7 +9,7 @@ import (
 
 // ---- pretty.Writer: line breaking and alignment ----
 
-const numPShapes = 9
+const numPShapes = 11
 
 // pLeaf: nil, a symbolic int of 1..3 characters, a symbolic bool or a
 // symbolic one byte string (the printed width of a leaf is what alignment
@@ -47,6 +47,17 @@ func pTree(shape int) any {
 		return []any{pLeaf("a"), []any{}, map[string]any{}, pLeaf("b")}
 	case 7:
 		return []any{[]any{pLeaf("a"), pLeaf("b")}, []any{pLeaf("c"), pLeaf("d")}, []any{}}
+	case 9, 10:
+		// two leaves at the nesting depths where the indentation reaches the
+		// end of the writer's constant run of spaces
+		var v any = []any{pLeaf("a"), pLeaf("b")}
+		if shape == 10 {
+			v = map[string]any{"a": pLeaf("a"), "b": pLeaf("b")}
+		}
+		for n := 126 + vx.Choose("deep", 4); n > 0; n-- {
+			v = []any{v}
+		}
+		return v
 	}
 	return map[string]any{"a": map[string]any{"b": map[string]any{"c": pLeaf("a")}}, "d": pLeaf("b")}
 }
@@ -62,6 +73,9 @@ func VerifPretty() {
 	depth := 1 + vx.Choose("depth", 3)
 	align := vx.Choose("align", 2) == 1
 	asSEN := vx.Choose("sen", 2) == 1
+	if shape >= 9 && (width != pWidths[0] || depth != 1) {
+		vx.Assume(false) // the deep shapes are costly: one width and depth setting
+	}
 	v := pTree(shape)
 	vx.Key("shape", shape)
 	vx.Key("width", width)
